@@ -256,6 +256,44 @@ def opParse (j : Json) : R Json := do
     ("sizes", Json.arr (s.sizes.map fun (p : Nat × Nat) => jPair (p.1 : Json) (p.2 : Json)).toArray),
     ("children", s.children.length)])
 
+open Edxml.Gate in
+def gEventTypeOf (j : Json) : R GEventType := do
+  let props ← (← fldArr j "props").mapM fun p => do
+    pure ({ name := ← fldStr p "name", dataType := ← fldStr p "dt", optional := ← fldBool p "optional",
+            multivalued := ← fldBool p "multivalued" } : GProp)
+  let attachments ← (← fldArr j "atts").mapM fun a => do
+    pure ({ name := ← fldStr a "name", base64 := ← fldBool a "base64" } : GAttachment)
+  pure { props, attachments }
+
+open Edxml.Gate in
+def infoOfJson (j : Json) : R (String → String → StrInfo) := do
+  -- rows: [property, value, hasLu, hasLl, latin1, regexOk|null]
+  let rows ← (← arr j).mapM fun r => do
+    match ← arr r with
+    | [p, v, lu, ll, l1, rx] =>
+      let regexOk : Option Bool ← match rx with
+        | Json.null => pure none
+        | x => pure (some (← x.getBool?))
+      pure ((← str p, ← str v), ({ hasLu := ← lu.getBool?, hasLl := ← ll.getBool?, latin1 := ← l1.getBool?, regexOk } : StrInfo))
+    | _ => throw "info row"
+  pure fun p v => match rows.find? (·.1 == (p, v)) with
+    | some r => r.2
+    | none => { hasLu := false, hasLl := false, latin1 := true, regexOk := none }
+
+open Edxml.Gate in
+def opGate (j : Json) : R Json := do
+  let ops ← (← fldArr j "hist").mapM fun o => do
+    match ← fldStr o "k" with
+    | "define" => pure (HistOp.mutate (.define (← fldStr o "name") (← gEventTypeOf (← fld o "et"))))
+    | "remove" => pure (HistOp.mutate (.remove (← fldStr o "name")))
+    | "touch" => pure (HistOp.mutate .touch)
+    | "clear" => pure (HistOp.mutate .clear)
+    | "validate" => pure (HistOp.validate (← fldBool o "ns") (← event (← fld o "event")) (← infoOfJson (← fld o "info")))
+    | x => throw s!"unknown history op {x}"
+  let v := runHist {} {} ops
+  let s := specHist {} ops
+  pure (Json.mkObj [("verdicts", Json.arr (v.map Json.bool).toArray), ("spec", Json.arr (s.map Json.bool).toArray)])
+
 def dispatch (j : Json) : R Json := do
   match ← fldStr j "op" with
   | "ping" => pure (Json.mkObj [("pong", true)])
@@ -269,6 +307,7 @@ def dispatch (j : Json) : R Json := do
   | "track" => opTrack j
   | "update" => opUpdate j
   | "xmed" => opXmed j
+  | "gate" => opGate j
   | x => throw s!"unknown op {x}"
 
 partial def loop (inp out : IO.FS.Stream) : IO Unit := do
